@@ -36,6 +36,7 @@ fn main() {
         }
         "run" => c12::run_main(args.iter().any(|a| a == "--full")),
         "cold" => c12::cold_main(),
+        "c12-sweep" => c12::sweep_main(),
         "c09-chunk" => c09::chunk_main(),
         "c09-exec" => c09::exec_main(),
         "replay" => {
